@@ -281,8 +281,8 @@ def scenarios(prop, lentil, rng):
 
         def integral_in_metres():
             worst = {}
-            for nw in (41, 40, 7):
-                w = uneven(nw)
+            for nw in (41, 40, 7, 61, 101):
+                w = uneven(nw) if nw < 50 else 400.0 + np.concatenate([[0], np.cumsum(rng.uniform(0.5, 6.0, size=nw - 1))])   # (steps of a few nm)
                 v = 1 + 0.5 * np.sin(w / 40)
                 for method in ('simps', 'trapz'):
                     I = R.Spectrum(w, v).integrate(method=method)
@@ -328,6 +328,93 @@ def scenarios(prop, lentil, rng):
                         bad[f'{name} seed as {label}'] = 'another seed gives the same frame'
             return not bad, bad
         add('sequence seeds (list, tuple, integer arrays) reproduce in every seeded model', sequence_seeds)
+
+    if prop in ('C03', 'C07'):
+        def signed_amplitude():
+            n = 48
+            amp = np.zeros((n, n))
+            amp[12:36, 8:24] = 1.0
+            amp[12:36, 24:40] = -1.0          # (a 0 / pi phase knife written as a signed amplitude)
+            seg = np.zeros((2, n, n), dtype=int)
+            seg[0, 12:36, 8:24] = 1
+            seg[1, 12:36, 24:40] = 1
+            opd = 30e-9 * rng.standard_normal((n, n))
+            res = []
+            for kw in ({}, {'mask': amp != 0}, {'mask': seg}):
+                w = lentil.Wavefront(650e-9) * lentil.Pupil(amplitude=amp, opd=opd, pixelscale=1 / n, focal_length=10, **kw)
+                wi = lentil.propagate_dft(w, pixelscale=5e-6, shape=40, oversample=2)
+                res.append((w.field, wi.field, wi.intensity))
+            exp = amp * np.exp(2j * np.pi * opd / 650e-9)
+            worst = {'pupil field, no mask': _rel(res[0][0], exp), 'pupil field, mask': _rel(res[1][0], exp), 'pupil field, segments': _rel(res[2][0], exp)}
+            for k, name in ((1, 'one mask'), (2, 'segments')):
+                worst[f'image field, {name} vs no mask'] = _rel(res[k][1], res[0][1])
+                worst[f'image intensity, {name} vs no mask'] = _rel(res[k][2], res[0][2])
+            return max(worst.values()) < 1e-9, worst
+        add('an amplitude that changes sign: no mask, one mask and a partition into segment masks give one field', signed_amplitude)
+
+    if prop in ('C03',):
+        def fitted_tilt_through_fft():
+            n = 32
+            r, c = H.mesh((n, n))
+            circ = (r ** 2 + c ** 2 <= 13 ** 2)
+            seg = np.array([circ & (c < 0), circ & (c >= 0)]).astype(int)
+            opd = seg[0] * 1e-8 * (0.5 * r - 0.2 * c) + seg[1] * 1e-8 * (-0.3 * r + 0.4 * c)
+            mk = lambda: lentil.Pupil(amplitude=circ * 1.0, opd=opd, mask=seg, pixelscale=1e-3, focal_length=10.0)
+            kw = dict(pixelscale=6.5e-6 / 2, shape=32, oversample=2)
+            ref = lentil.propagate_fft(lentil.Wavefront(650e-9) * mk(), **kw)
+            try:
+                got = lentil.propagate_fft(lentil.Wavefront(650e-9) * mk().fit_tilt(), **kw)
+            except Exception as e:
+                return True, {'refused': type(e).__name__}
+            err = max(_rel(got.field, ref.field), _rel(got.intensity, ref.intensity))
+            return err < 1e-8, {'against the plane with the tilt in its OPD': err}
+        add('propagate_fft of a segmented plane after fit_tilt: refused, or the result for the same plane with the tilt in the OPD', fitted_tilt_through_fft)
+
+    if prop in ('C04',):
+        def curved_dispersion():
+            ref_wl, b, slope = 650e-9, 1e-4, 0.75
+            trace = [slope, 2e-5]
+            worst = {}
+            for wl in (700e-9, 850e-9, 1000e-9, 500e-9):
+                delta = wl - ref_wl
+                for k in (0.0, 0.05, -0.3, 1.0, 3.0, -0.8, -0.95, 9.0, 24.0, 80.0):
+                    a = k * b ** 2 / (4 * delta)
+                    x, y = lentil.DispersiveTilt(trace=trace, dispersion=[a, b, ref_wl]).shift(wavelength=wl)
+                    s = x * np.sqrt(1 + slope ** 2)
+                    worst[f'wl={wl:g} k={k}'] = max(abs(np.polyval([a, b, ref_wl], s) - wl) / abs(delta), abs(y - np.polyval(trace, x)) / 1e-9)
+            return max(worst.values()) < 1e-6, {k: v for k, v in worst.items() if v >= 1e-6} or {'cases': len(worst)}
+        add('a strongly curved dispersion polynomial: the displacement lies on the trace at the arc length the polynomial maps to the wavelength', curved_dispersion)
+
+    if prop in ('C08',):
+        def type_by_assignment():
+            amp = lentil.circle((16, 16), 7)
+            bad = {}
+            for label, value, name in (('object', lentil.pupil, 'pupil'), ('str', 'pupil', 'pupil'), ('numpy str', np.str_('pupil'), 'pupil'), ('None', None, 'none'),
+                                       ('image str', 'image', 'image')):
+                w = lentil.Wavefront(650e-9)
+                w.ptype = value
+                want = getattr(lentil, name)
+                if not (w.ptype == want):
+                    bad[f'{label}: stored'] = repr(w.ptype)
+                    continue
+                if name == 'image':
+                    if not ((w * lentil.Image()).ptype == lentil.image):
+                        bad[f'{label}: image x image'] = 1
+                    continue
+                w1 = w * lentil.Pupil(amplitude=amp, pixelscale=1e-3, focal_length=1.0)
+                if not (w1.ptype == lentil.pupil):
+                    bad[f'{label}: x pupil'] = repr(w1.ptype)
+                if name == 'pupil':
+                    try:
+                        w * lentil.Image()
+                        bad[f'{label}: pupil x image not refused'] = 1
+                    except TypeError:
+                        pass
+                wi = lentil.propagate_dft(w1, pixelscale=5e-6, shape=(8, 8))
+                if not (wi.ptype == lentil.image):
+                    bad[f'{label}: propagated'] = repr(wi.ptype)
+            return not bad, bad
+        add('a wavefront typed by assignment (object, string, numpy string, None) follows the same table', type_by_assignment)
 
     if prop in ('C19',):
         def megapixel_jitter_commutes():
